@@ -219,24 +219,42 @@ fn advance(procs: &mut [Proc], i: usize, trace: &mut Trace, go: bool) {
     }
 }
 
+/// The monitor's view of the lock directory. Every child is parked when this runs, so the
+/// directory cannot change; a failed or inconsistent read (fd pressure on a loaded machine) must
+/// never look like "no flag": read until two consecutive reads agree, fail loudly otherwise.
 fn dir_state(home: &Path, pids: &[u32]) -> String {
-    let d = home.join(".forc").join(".lsp-locks");
-    let mut items = vec![];
-    if let Ok(rd) = std::fs::read_dir(&d) {
-        for e in rd.flatten() {
-            let content = std::fs::read_to_string(e.path()).unwrap_or_default();
-            let norm = match content.trim().parse::<u32>() {
-                Ok(p) => match pids.iter().position(|x| *x == p) {
-                    Some(i) => format!("pid#{i}"),
-                    None => "pid?".to_string(),
-                },
-                Err(_) => format!("raw:{content}"),
-            };
-            items.push(norm);
+    let mut last: Option<String> = None;
+    for _ in 0..8 {
+        match dir_state_once(home, pids) {
+            Some(s) => {
+                if last.as_deref() == Some(s.as_str()) {
+                    return s;
+                }
+                last = Some(s);
+            }
+            None => std::thread::sleep(Duration::from_millis(20)),
         }
     }
+    vhcore::machinery_failure("the monitor could not obtain two consistent reads of the lock directory")
+}
+
+fn dir_state_once(home: &Path, pids: &[u32]) -> Option<String> {
+    let d = home.join(".forc").join(".lsp-locks");
+    let mut items = vec![];
+    for e in std::fs::read_dir(&d).ok()? {
+        let e = e.ok()?;
+        let content = std::fs::read_to_string(e.path()).ok()?;
+        let norm = match content.trim().parse::<u32>() {
+            Ok(p) => match pids.iter().position(|x| *x == p) {
+                Some(i) => format!("pid#{i}"),
+                None => "pid?".to_string(),
+            },
+            Err(_) => format!("raw:{content}"),
+        };
+        items.push(norm);
+    }
     items.sort();
-    items.join(",")
+    Some(items.join(","))
 }
 
 fn hash(s: &str) -> u64 {
